@@ -148,7 +148,7 @@ def gen_cases(unit, ctx):
     elif kind == "events":
         t1 = unit[1]
         for ns in ([], [(1, 6, p, c0)], [(0, 3, p, c0), (2, 5, p, c1)]):
-            for e1 in (["ts", t1, 3, 4], ["ks", t1, "G"]):
+            for e1 in (["ts", t1, 3, 4], ["ks", t1, "G"], ["cc", t1, 64, 100], ["pc", t1, 5]):
                 yield from _emit(_mk(ns), [e1], "rel")
                 if e1[0] == "ts":
                     for t2 in range(0, 9):
